@@ -21,7 +21,10 @@ def run(ctx):
         assumptions=["u32 generation overflow beyond 2^32-2048 messages per sender and epoch is excluded (hypothesis of permutation_complete; counterexample permutation_near_overflow kept in the Props file)",
                      "roll-back to a snapshot older than the last send is outside the claim (only the random reuse guard protects it)",
                      "key_injective assumes collision-free KDF (FreePrim), instantiated and proved for the free term algebra"],
-        nontrivial=lambda r, kv: r["rows"] + int(kv.get("deliveries", "0")))
+        nontrivial=lambda r, kv: r["rows"] + int(kv.get("deliveries", "0")),
+        # late messages of stored prior epochs (both storage providers, random write / reload / crash points, random epoch order):
+        # an accepted late message is never accepted again (oracle tagged C05 in the repository harness)
+        also=[(["c06", "--focus", "C05"], "repo", "c06all")])
 
 
 def replay(ctx, path):
